@@ -247,6 +247,11 @@ func (c *client) onConnClosed(conn internalConn) {
 		c.disconnected_.Set()
 	}
 
+	// Do not reconnect when closed
+	if c.closed_.IsSet() {
+		return
+	}
+
 	// Maybe auto-connect
 	if c.mode == ClientMode_AutoConnect {
 		c.connect()
